@@ -58,3 +58,14 @@ def in_extent(e, r, c):
 def obj(ctx, qualname, **attrs):
     cls = ctx.world.repo.klass(qualname)
     return Obj(cls, attrs)
+
+
+def elems(ctx, v):
+    """Scalars of a short sequence value (tuple / list / 1-D array of concrete length)."""
+    if isinstance(v, Arr):
+        if v.ndim == 0:
+            return [v.at(())]
+        return [A.unwrap0(x) for x in ctx.world.interp.iterate(ctx, v)]
+    if isinstance(v, PyList):
+        return [A.unwrap0(x) for x in v.items]
+    return [A.unwrap0(x) for x in v]
